@@ -324,6 +324,12 @@ func (p *TransportParameters) readNumericTransportParameter(b []byte, paramID tr
 			return fmt.Errorf("initial_max_streams_uni too large: %d (maximum %d)", p.MaxUniStreamNum, protocol.MaxStreamCount)
 		}
 	case maxIdleTimeoutParameterID:
+		if val == 0 {
+			// RFC 9000, section 18.2: the idle timeout is disabled when the parameter is absent or 0.
+			p.AdvertisedMaxIdleTimeout = 0
+			p.MaxIdleTimeout = 0
+			break
+		}
 		p.AdvertisedMaxIdleTimeout = saturatingDuration(val, time.Millisecond)
 		p.MaxIdleTimeout = max(protocol.MinRemoteIdleTimeout, p.AdvertisedMaxIdleTimeout)
 	case maxUDPPayloadSizeParameterID:
